@@ -1320,6 +1320,8 @@ func (km *KeystoreManager) updateManagedKeystore(dbTransaction db.ReadTransactio
 }
 
 func (km *KeystoreManager) UpdateManagedKeystores(dbTransaction db.ReadTransaction, accountID string) {
+	km.mu.Lock()
+	defer km.mu.Unlock()
 	err := km.updateManagedKeystore(dbTransaction, accountID)
 	if err != nil {
 		logging.CPrint(logging.FATAL, "failed to update managed keystore", logging.LogFormat{"error": err})
